@@ -66,6 +66,10 @@ func (lex *lexer) Lex(out *yySymType) int {
         nerrors = len(lex.errors)
     )
 
+    // A docstring documents the definition that starts right after it: one
+    // that was not claimed before the next token is requested is stale.
+    lex.lastDocstring = ""
+
     %%{
        docstring =
             '/**' @{ lex.docstringStart = lex.p - 2 }
